@@ -58,6 +58,37 @@ example : [str "!build", str "#build", str "**/build", str "a?", str "[ab]", str
     List.replicate 17 none := by
   decide +kernel
 
+/-- **blank lines and `#` comments of an exclusion list contribute nothing** - pathspec turns them
+into the null pattern, git ignores them - so a list of lines is read by reading the other lines,
+each by `Pat.parse`, in order.  (A `.gitignore` is handed over line by line,
+`read_text().splitlines()`, blank lines and comments included; a line that is neither ignored nor
+of the six classes makes the result `none`: outside the model.) -/
+theorem parseAll_iff (ls : List Str) (pats : List Pat) :
+    parseAll ls = some pats ↔ (ls.filter (fun s => !ignoredLine s)).map Pat.parse = pats.map some :=
+  parseAll_eq_some_iff ls pats
+
+/-- inserting or removing an ignored line anywhere changes nothing -/
+theorem ignored_line_irrelevant (a b : List Str) (l : Str) (h : ignoredLine l = true) :
+    parseAll (a ++ l :: b) = parseAll (a ++ b) := by
+  rw [parseAll_filter, parseAll_filter (a ++ b), List.filter_append, List.filter_append,
+    List.filter_cons_of_neg (by simp [h])]
+
+/-- the two kinds of line are disjoint: a line of the six classes is never ignored (so skipping
+takes no pattern away) -/
+theorem parsed_line_not_ignored {s : Str} {q : Pat} (h : Pat.parse s = some q) : ignoredLine s = false :=
+  parse_some_not_ignored h
+
+/-- an ordinary `.gitignore`: comments (also indented), blank and white-space-only lines are
+skipped, the rest is read; `\#x` (an escaped `#`) and a trailing comment after a pattern are
+not comments for pathspec, and outside the model -/
+example :
+    parseAll [str "# build artefacts", str "", str "build", str "  ", str "*.min.js", str "\t# x", str "/docs"] =
+      some [.name (str "build"), .ext (str ".min.js"), .rooted [str "docs"]] ∧
+    parseAll [str "build", str "\\#x"] = none ∧ parseAll [str "build # the output"] = none ∧
+    [str "", str " ", str "#", str "# c", str " \t #c", str "x", str "!x", str "\\#"].map ignoredLine =
+      [true, true, true, true, true, false, false, false] := by
+  decide +kernel
+
 /-- **the built-in list is 26 bare names**: every entry of `DEFAULT_EXCLUDES` parses, to class
 `name` (so the built-in list excludes exactly the files with a component equal to one of them:
 `builtin_excludes_iff`) -/
